@@ -111,8 +111,8 @@ func c10Main(args []string) error {
 		}
 		v := variant
 		take := func(n int) int { x := v % n; v /= n; return x }
-		scale := []int{1, 1, 9, 70}[take(4)] // contiguous runs of >= 8 and >= 64 equal rows
-		batch := []int{1, 2, 1000, 3}[take(4)]
+		scale := []int{1, 1, 9, 70}[take(4)]           // contiguous runs of >= 8 and >= 64 equal rows
+		batch := []int{1, 2, 1000, 3, 11, 10}[take(6)] // 11/10: later writes of >= 8 rows at a non-zero base
 		dedupe := take(2) == 1
 		sorting := c10Sorting(sc.Cs)
 
